@@ -39,7 +39,7 @@ chk("C12", "exploration",
     "Injection at the project's own call sites (link-time wrap); libc-internal I/O (stdio messages) is not perturbed. Observed schedules only.",
     "differential outputs under injected short I/O and EINTR", "3/C12")
 chk("C13", "fault_enumeration",
-    "For two small inputs x 16 tool scenarios (gensquashfs pack-file/pack-dir/xattr-file, tar2sqfs plain and gzip stdin, sqfs2tar plain/gzip/zstd/xz, rdsquashfs cat/stat/list/xattr/describe/unpack) "
+    "For two small inputs (thorough: plus two medium ones) x 19 tool scenarios (gensquashfs pack-file/pack-dir/xattr-file and a pack-dir run with a weakened block checksum so that colliding fragments are compared through read-back, tar2sqfs plain and gzip stdin, sqfs2tar plain/gzip/zstd/xz, rdsquashfs cat/stat/list/xattr/describe/unpack) "
     "a counting run records the number of calls per class; then one ASan run per (class, k, kind): k-th read/write/pread/pwrite/ftruncate/open/fsync/readdir failing with EIO/ENOSPC/EACCES "
     "(also EINTR-then-error and persistent errors) and the k-th allocation by project code returning NULL. Oracle: no sanitizer report or signal; exit != 0 implies a diagnostic and (packers) no output file; "
     "exit 0 implies output identical to the fault-free run. Plus truncated tar streams (cut inside a member) and truncated images.",
@@ -91,7 +91,8 @@ chk("C04", "exploration",
 chk("C15", "exploration",
     "Generated archives are wrapped by reference codecs (Python zlib/lzma/bz2 and libzstd via ctypes) at several levels as single streams, 2-4 concatenated members split at arbitrary and 512-aligned offsets, "
     "gzip streams with sync-flush points and a first member shorter than the format probe, and piped into tar2sqfs (ASan) in chunks of 1..65536 bytes: the image must be identical to the uncompressed archive's. "
-    "Negative inputs (truncation at random offsets, inside the trailer, at/after flush points and inside a second member; bit flips; garbage and zero suffixes) must never give exit 0 with a different image "
+    "Negative inputs (truncation at random offsets, inside the trailer, at/after flush points and inside a second member; bit flips anywhere and in the last quarter; well-formed streams of a changed archive whose CRC field is damaged; "
+    "archives whose end-of-archive marker ends at, before and after a multiple of the 256 KiB stream buffer; garbage and zero suffixes) must never give exit 0 with a different image "
     "(unless the reference decoder accepts the damaged stream too) and never hang. Reverse: sqfs2tar -c gzip/xz/zstd/bzip2 output decoded by the reference codec must equal plain sqfs2tar for tar streams "
     "sized around multiples of the 256 KiB wrapper buffer with incompressible content.",
     "Reference decoders are trusted; a stream whose only damage is undetectable by the reference decoder is not judged.",
@@ -100,16 +101,18 @@ chk("C05", "exploration",
     "Valid images are built by an independent writer with uncompressed metadata and a map of every on-disk field; each field (superblock, inode fields, directory headers/entries, table entries and locations, "
     "block size words, xattr fields, metadata block headers) is overwritten with 0, 1, max, +-1, sign bit, doubled and random values. Every mutant is walked in a forked child of an ASan+UBSan harness that drives "
     "libsquashfs the way the tools do (full hierarchy, stat, xattrs, stream / positional / per-block / fragment data access, recursive iterator with hard-link filter); a sample plus byte-mutated tool-written "
-    "compressed images plus special images (directory loops, nested shared directory inodes up to depth 40, truncations) go through rdsquashfs -d/-l/-s/-c/-x/-u, sqfs2tar (plain, gzip, --subdir) and sqfsdiff. "
+    "compressed images plus special images (directory loops, nested shared directory inodes up to depth 40, truncations, inode tables that end inside a record of every inode kind, valid images sweeping xattr lengths) go through "
+    "rdsquashfs -d/-l/-s/-c/-x/-u, sqfs2tar (plain, gzip, --subdir) and sqfsdiff; the first 16 bytes of every compressed stream (metadata, data, fragment blocks) of tool-written images in all five compressors are mutated and walked. "
     "Oracle: no sanitizer report, signal, hang (no exit within 5x the watchdog on a solitary re-run) or resource blow-up; exit status is free.",
-    "Quick samples one instance per field kind; thorough mutates every field. Compressed metadata is reached only by byte mutation. ASan red zones miss far out-of-bounds accesses.",
+    "Quick samples one instance per field kind (off-by-one values always kept); thorough mutates every field. Compressed metadata is reached by byte and stream-header mutation only. ASan red zones miss far out-of-bounds accesses.",
     "structure-aware field mutation + ASan/UBSan walk harness and CLI replay", "3/C05")
 chk("C10", "exploration",
     "For tool-written images in every compressor and for field-mutated writer images (including two inodes that share a data location with different size words) a catalogue of self-contained reader queries "
     "(inode by reference incl. references into the middle of records / beyond the block, directory listing, path resolution, positional read, block, fragment, stream, xattr set, id lookup, raw metadata "
     "seek+read; valid and invalid arguments) is answered once by freshly created readers per query. Histories of queries (random, failing queries in between, repeats, same/neighbouring metadata blocks) then run "
     "on one long-lived set of reader objects in an ASan harness; every (status, payload hash) must equal the fresh answer. A mismatch is minimised to the shortest failing history. The hook log counts cache "
-    "hits/misses so the evidence shows the caches were exercised; the stream, positional and per-block APIs are compared on every tool-written file.",
+    "hits/misses so the evidence shows the caches were exercised; the stream, positional and per-block APIs are compared on every tool-written file (files with holes included), and a file stream that reported an error "
+    "must not hand out data on the next call.",
     "The DOT_ENTRIES directory cache is documented as stateful and not used; cursor APIs are exercised as seek+read pairs. Histories are sampled, not enumerated.",
     "history replay against fresh-object reference answers (shadow oracle)", "3/C10")
 chk("C06", "exploration",
@@ -122,7 +125,8 @@ chk("C06", "exploration",
     "before/after jail snapshot around the real unpacker on hostile images", "3/C06")
 chk("C19", "exploration",
     "For each of the copyable kinds (gzip/xz/lzma/lz4/zstd compressors in both directions, fragment table, id table, metadata, directory, data and xattr readers, read-only file, xattr writer) an ASan+LSan "
-    "harness builds three identically constructed objects with the same seeded pre-history, takes C = sqfs_copy(O1) (every third history also a copy of the copy), then drives C and O1 with different interleaved "
+    "harness builds three identically constructed objects (compressors with seeded non-default options) with the same seeded pre-history; in a third of the histories every allocation inside sqfs_copy(O1) is first made to fail once "
+    "and O1 must keep answering like its twin; then C = sqfs_copy(O1) (every third history also a copy of the copy), and C and O1 are driven with different interleaved "
     "seeded operation sequences: C must answer every operation like the untouched twin O2 and O1 like the twin O3 (answers compared as hashes of status and payload; the xattr writer additionally by the bytes it "
     "flushes). Then O1 or C is released first (one process per order so a crash is attributable), the survivor is used again, and LeakSanitizer must be clean.",
     "Operation histories are sampled; equivalence is judged on the answers of the public API, not on internal state.",
